@@ -6,6 +6,7 @@ import (
 	"sync"
 	"time"
 
+	plugin "simworld/goplugin"
 	"simworld/h"
 	"simworld/k"
 	"simworld/plugins"
@@ -54,6 +55,14 @@ func init() {
 					}
 				}
 			}
+			// the peer is gone altogether: the plugin died before / while the host connected
+			for _, kind := range c09Kinds[1:] {
+				for _, when := range []string{"before-client", "before-dispense", "after-dispense"} {
+					for _, how := range []string{"kill", "stop"} {
+						out = append(out, sp("C09", fmt.Sprintf("deadpeer/%s%s/%s/%s", kind["proto"], kind["mux"], when, how), seed, cp(kind, "hist", "deadpeer", "when", when, "how", how)))
+					}
+				}
+			}
 			n := 600
 			if tier == "thorough" {
 				n = 150000
@@ -75,7 +84,94 @@ func init() {
 	})
 }
 
+// runC09Dead: unmatched accepts and dials on the host while the plugin is dead
+// (or frozen) - with the broker's control stream never started, or broken.
+func runC09Dead(r *h.Run) {
+	w := r.W
+	c := r.ConfFromParams()
+	kind := c.Proto
+	if c.Mux {
+		kind += "+mux"
+	}
+	when, how := r.Spec.P("when", "before-client"), r.Spec.P("how", "kill")
+	ctx := fmt.Sprintf("broker=%s peer=%s %s", kind, map[string]string{"kill": "dead", "stop": "frozen"}[how], when)
+	r.InstallPlugin(&c)
+	cl := r.NewClient(c)
+	fault := func(at string) {
+		if at != when {
+			return
+		}
+		p := w.ProcByName("plugin")
+		if how == "kill" {
+			p.Crash(137, "killed: "+when)
+		} else {
+			p.Stop()
+		}
+		w.CountFault("proc." + how + "@" + when)
+		time.Sleep(100 * time.Millisecond)
+	}
+	if o := r.DoNoHang("Start", 90*time.Second, ctx, func() (any, error) { return cl.Start() }); o.Err != nil || o.Hung {
+		r.Violate("setup", "start "+ctx, fmt.Sprint(o.Err))
+		return
+	}
+	fault("before-client")
+	o := r.DoNoHang("Client", 60*time.Second, ctx, func() (any, error) { return cl.Client() })
+	if o.Hung || o.Err != nil {
+		return
+	}
+	cproto := o.Val.(plugin.ClientProtocol)
+	fault("before-dispense")
+	o = r.DoNoHang("Dispense", 60*time.Second, ctx, func() (any, error) { return cproto.Dispense(h.PluginName) })
+	if o.Hung || o.Err != nil {
+		return
+	}
+	gc := o.Val.(*plugins.GRPCClient)
+	fault("after-dispense")
+	const B = 30 * time.Second
+	var wg sync.WaitGroup
+	for i := 0; i < 3; i++ {
+		id := uint32(2100 + i)
+		wg.Add(2)
+		go k.Trap(func() {
+			defer wg.Done()
+			o := r.Do(fmt.Sprintf("Accept(%d)[host]", id), B+10*time.Second, func() (any, error) {
+				ln, err := gc.Broker.Accept(id)
+				if err == nil {
+					defer ln.Close()
+				}
+				return nil, err
+			})
+			if o.Hung {
+				r.Violate("hang", "op=accept-nodial "+ctx, fmt.Sprintf("host-side Accept still outstanding after %v simulated\n%s", o.Took, h.StacksOf("host", "goplugin")))
+			}
+		})
+		go k.Trap(func() {
+			defer wg.Done()
+			o := r.Do(fmt.Sprintf("Dial(%d)[host]", id+100), B+10*time.Second, func() (any, error) { return h.HostDialPing(gc, id+100) })
+			if o.Hung {
+				r.Violate("hang", "op=dial-noaccept "+ctx, fmt.Sprintf("host-side Dial still outstanding after %v simulated\n%s", o.Took, h.StacksOf("host", "goplugin")))
+			} else if o.Err == nil {
+				r.Violate("phantom", ctx+" dial without accept succeeded", "")
+			}
+		})
+	}
+	wg.Wait()
+	ko := r.Do("Kill", 150*time.Second, func() (any, error) { cl.Kill(); return nil, nil })
+	if ko.Hung {
+		r.Violate("hang", "op=Kill "+ctx, h.StacksOf("host", "goplugin"))
+		return
+	}
+	time.Sleep(10 * time.Second)
+	if leaks := h.StacksOf("host", "goplugin.(*GRPCBroker)"); leaks != "" {
+		r.Violate("goroutine-leak", "broker="+kind+" GRPCBroker goroutine left after Kill", leaks)
+	}
+}
+
 func runC09(r *h.Run) {
+	if r.Spec.P("hist", "") == "deadpeer" {
+		runC09Dead(r)
+		return
+	}
 	w := r.W
 	c := r.ConfFromParams()
 	s := open(r, c)
@@ -153,7 +249,9 @@ func runC09(r *h.Run) {
 			if c.Proto == "grpc" && !c.Mux || c.Mux {
 				// gRPC Accept does not wait for a peer; AcceptAndServe runs until
 				// the broker closes. Only check that it does not wedge anything.
-				accept(side, newID())
+				if o := accept(side, newID()); o.Hung {
+					mustFail("accept-nodial:"+side, o)
+				}
 				return
 			}
 			o := accept(side, newID())
